@@ -60,6 +60,21 @@ CHECKS = {
    "(a) all histories up to depth 3-6 (quick) / 3-8 (thorough) over new-object PUT (via the wrapper or directly, sizes 1/100/5000 B), 17 read kinds (get, get_opts plain/bounded/offset/suffix/if_match/if_none_match/date conditions/head, get_range, get_ranges, head) on <=4 name-related keys incl. missing ones, clock ticks, disk-tier settle; L1 in {0,1,100,200,5000,1 MiB} B x disk tier in {none, 4096, 8192, 128 MiB} x 1-3 preloaded contents (eviction on every insert, objects larger than a tier, L2->L1 promotion). (b) all interleavings of 2 (3) tasks x 2-3 reads on same / crossed / related / missing keys incl. one writer of a new object and <=2 clock jumps, L1-only configurations.",
    "a read that must fail may fail with any error kind; answers that ignore date preconditions but return exact bytes are not judged; only meta.size/location compared; disk-tier configurations sequential only (foyer runs its own threads); delete/rename through the wrapper is outside the quantifier and reported as an observation unless VERIF_C16_EXT_STRICT=1",
    "DESIGN.md section 5 C16"),
+ "C17": (ENGINE_C, "exploration",
+   "bounded-exhaustive input enumeration against the real entry points, each case in a watched worker process so that hangs (2 s CPU) and aborts are attributed to the exact input; expected rows computed by the harness's own protobuf writer/model",
+   "Remote write: <=3 series x {no name, 2 names} x 2 labels {absent, 2 values} x <=2 samples; 20 values (+-0, fractions, 2^53+-, 2^63+-, 2^64, 1e300, 5e-324, +-inf, NaN) x 9 timestamps incl. ones not expressible in ns; 688 alternative valid encodings. OTLP: <=2 resources x <=2 metrics x <=2 points over gauge/sum/histogram/exp-histogram/summary with overlapping resource/point attributes. Bytes: every HTTP body <=2 bytes; every snappy-wrapped payload <=2 (quick) / <=3 (thorough, 16.8 M) bytes; single-mutation neighbourhoods (every prefix, every single-byte substitution, every varint / 32/64-bit word replaced by boundary values) of remote-write, OTLP, snappy and Flight frames; all Flight frame sequences <=3 over 6 frame kinds. Oracle: one row per sample with exact ns timestamp, name, complete label set, numerically equal value; a status comes back, no panic, no hang.",
+   "built with overflow checks on; HTTP/gRPC framing not exercised; row order not prescribed; null and empty string both mean label absent; lenient where the property is silent (series without a name, key clashes, non-string attributes)",
+   "DESIGN.md section 5 C17"),
+ "C18": (ENGINE_C, "exploration",
+   "bounded-exhaustive differential enumeration: every WHERE clause of the supported grammar x every small batch, QueryFilter::from_sql/apply vs DataFusion's own evaluation of the same clause over a MemTable of the rows; the same clauses streamed end to end through a real Ingester flush -> broadcast/topic channel -> StreamingQueryExecutor and through the websocket endpoint; all TopicFilter trees x all batch metadata through matches(), the and() builder and FilteredReceiver",
+   "Clauses: no WHERE; 390 comparison forms (6 operators x both operand orders x 5 columns x matching/other-type/negative/NULL literals, qualified/upper-case/quoted names); all AND/OR pairs of 132 core forms; all depth-2 trees over a 12-comparison alphabet (quick: 6/5). 2 schemas (Timestamp(ns,UTC) / Int64). Batches: every batch of <=3 (quick 2) rows over an 8-row covering alphabet plus one 1296-row batch of all value combinations around the merge point. 2.7 M (quick) / 83.7 M (thorough) row-filter cases; 3 k / 131 k streams (order and multiplicity checked); 10,701 / 74,813 topic filters of depth <=2 x 63 metadata; 50 websocket cases.",
+   "DataFusion v44 is the meaning of a WHERE clause; NOT/IN/BETWEEN/LIKE/IS NULL/functions are outside the stated scope; the subscriber keeps up; frozen wall clock (merge point = subscription instant)",
+   "DESIGN.md section 5 C18"),
+ "C19": (ENGINE_B, "model_checking",
+   "explicit-state breadth-first search over cluster operation histories, every transition executed by replaying the state's shortest history through the public API on freshly built NodeRegistry + ShardAssignment + DistributedWriteRouter under an interposed monotonic clock; states deduplicated on a full-state fingerprint (cross-checked against enumeration without deduplication); each route_write runs as a tokio task under a 50-poll watchdog in a worker process with abort attribution",
+   "For each of 3 assignment strategies x 2 clusters (2 ingesting + 1 query-only node with type flip; 3 ingesting nodes), 2 shards, loads {10,(94),95}: ALL histories up to depth 6 (quick, ~250 k states / 1.1 M transitions) or 8 (thorough, ~6.6 M states / 37 M transitions) over register / re-type / drain / heartbeat / heartbeats lost 16 s or 31 s + one tick of the real health check / load / remove / rebalance / route: every route returns within the poll bound an eligible node (healthy, ingesting type, load < 95, equal to the assignment) or an error, and no shard leaves a still-eligible node except through rebalance.",
+   "sequential histories only; Err is always accepted; any rebalance justifies any move; heartbeat loss affects all nodes at once",
+   "DESIGN.md section 5 C19"),
  "C20": (ENGINE_B, "model_checking",
    "explicit enumeration of every initial catalog x configuration of a bounded family, each driven through repeated real compaction cycles with the invariant checked between cycles",
    "All catalogs with 0..3/2/2/1 (thorough 0..4/3/4/3) chunks at L0 hour A / L0 hour B / L1 / L2 x merge threshold {2,3} x level target size {1 B, ~2 chunks, ~100 chunks} x max_levels {2,4} x both back ends: a fixed point is reached within 8 cycles, candidate groups offered before each cycle are pairwise disjoint and level-homogeneous, groups actually merged (leases) are disjoint and of the lease's level, every level equals max(replaced)+1 or stays, rows conserved.",
@@ -70,6 +85,16 @@ CHECKS = {
    "(a) all histories up to depth 4 (quick) / 6 (thorough) over {compaction cycle, clock +100 s/+301 s/+1 day, pin(2 sets), unpin, restart via Compactor::run} on both catalog back ends with grace 0/300 s and retention 1 day over a dataset with chunks inside the window, older than, straddling the cut-off and with negative timestamps; from every state the persisted pending deletions must be carried out after clock-past-grace + restart. (b) every schedule within 2 (3) preemptions of run_compaction_cycle vs QueryNode::query sharing a ChunkPinRegistry, catalog calls and store requests as scheduling points, grace 0/30/300 s: no DELETE is sent while the chunk is pinned.",
    "wall and monotonic clocks advance together; the harness is the only other source of catalog changes; quick tier does not make the query's chunk-data reads scheduling points",
    "DESIGN.md section 5 C09"),
+ "C10": (ENGINE_A, "model_checking",
+   "stateless model checking of the real QueryNode: exhaustive DFS over all interleavings of 2-3 queries at catalog-call and registration/planning pause-point granularity, each result compared with the same query run alone",
+   "One QueryNode over chunks in disjoint hours; 2 queries (rows, aggregates), a query against the historical phase of StreamingQueryExecutor::execute, thorough: 3 queries with two tenants and two streaming subscriptions; all interleavings (3 queries: 4 preemptions) of catalog calls and the pause points before registration and after planning; every result must equal the result of the same query alone on a fresh node.",
+   "DataFusion-internal waits resolve inside one step on the single-threaded runtime, so the interleaving granularity is register / plan / execute; queries use Int64 timestamps with integer literals",
+   "DESIGN.md section 5 C10"),
+ "C11": (ENGINE_B, "model_checking",
+   "explicit-state breadth-first search over statement sequences against the real entry points; state = full world image (object listing with sizes/ETags/hashes, catalog, session catalogs/tables/options/functions/prepared statements, local files, probe queries on both nodes and a node started afterwards); every sequence re-executed on a freshly built world",
+   "1232 transitions: 16 SQL entry points (HTTP SQL POST/GET, adaptive-indexing node, Flight get_flight_info / do_get / prepared statements / execute_batches, query_stream, query_stream_filtered, the 7 QueryEngine methods that take SQL) x 75 statements (one or more per statement kind DataFusion 44 plans; COPY targets: fresh path, existing chunk, catalog object, directories, file:// URL, local path, unregistered scheme) + 32 hostile/benign Prometheus requests; two initial states (cold, warm); quick depth 1, thorough depth 2 plus all ordered pairs; invariant: image unchanged, no mutating request reaches the store handles, every write-like statement gets an error from every executing entry point. A self-test hands every statement to DataFusion unrestricted to prove the image sees each kind of write.",
+   "one representative per statement kind; entry points called in-process (no HTTP/gRPC framing); SET / PREPARE / transactions / EXPLAIN without ANALYZE only need to leave the state unchanged",
+   "DESIGN.md section 5 C11"),
  "C13": (ENGINE_A, "model_checking",
    "stateless model checking of the real code: exhaustive DFS over all interleavings of 2-3 nodes' shard-metadata updates/creations at object-store-request granularity with state caching; plus exhaustive update histories of the router cache",
    "Every interleaving of 1-2 update_shard_metadata calls per node (expected generation equal, stale, ahead; shard absent or at generation 2) on the object-store client (request granularity) and the in-memory client (call granularity); oracle: one winner per base generation, generations form the chain g0+1.., every version ever written carries the next generation, stored content belongs to the last winner; ShardRouter: all update sequences up to depth 5/7 never lower the cached generation.",
